@@ -26,8 +26,9 @@ def ref_state(state, cs):
 
 
 def ref_name_is(name, state):
-    """`name` (concrete str from the implementation) is the name of `state` (maybe symbolic)."""
-    r = False
+    """`name` (concrete str from the implementation) is the name of `state` (maybe symbolic); a state
+    number that is not one of the defined ones has no prescribed name"""
+    r = sx.all_([state != s for s in STATES])
     for s, n in STATE_NAMES.items():
         if n == name:
             r = r | (state == s)
@@ -133,8 +134,7 @@ def _do_step(rig, kind, m, s, tag):
         if other:
             sx.reach("heartbeat-other")
             return m, s
-        st = b & 0x7F
-        sx.assume(sx.any_([st == x for x in STATES]))     # undefined state numbers: unspecified
+        st = b & 0x7F            # undefined state numbers are stored as reported (no prescribed name)
         sx.reach("heartbeat")
         return sx.ite(st == 0, 127, st), s
     if kind == "slave_bootup":
@@ -152,10 +152,11 @@ def _do_step(rig, kind, m, s, tag):
 KINDS = ["send_command", "state_name", "foreign", "heartbeat", "slave_bootup"]
 
 
-def step(kind):
-    """Inductive step from arbitrary defined states of master and slave."""
+def step(kind, wild=False):
+    """Inductive step from arbitrary states of master and slave (wild: the master holds any state
+    number 0..127 a heartbeat may have reported, defined or not)."""
     rig = Rig()
-    m = _sym_state("m0")
+    m = sx.fresh_int("m0w", 0, 127) if wild else _sym_state("m0")
     s = _sym_state("s0")
     rig.master._state = m
     rig.slave._state = s
@@ -235,6 +236,7 @@ def jobs(tier):
     out = []
     for kind in KINDS:
         out.append(dict(func="step", params=dict(kind=kind), weight=3))
+        out.append(dict(func="step", params=dict(kind=kind, wild=True), weight=3))
     kmax = 2 if tier == "quick" else 3
     for k in range(1, kmax + 1):
         for first in KINDS:
@@ -252,13 +254,13 @@ META = dict(
                "symbolic command specifier (0..255), symbolic foreign [cs, target] frames, symbolic heartbeat bytes, "
                "all state names plus invalid ones; bounded histories from the initial state; waits under a "
                "condition-variable model. Reference machine written from CiA 301.",
-    level_note="Step invariant: master and slave state numbers are among the six defined ones. Heartbeats carrying "
-               "undefined state numbers are unspecified and excluded. Condition.wait modelled; real threads outside.",
+    level_note="Step invariant: the slave state is one of the six defined ones, the master state any number 0..127 "
+               "(a heartbeat may report anything). Condition.wait modelled; real threads outside.",
     bounds=dict(quick="step: 6x6 state pairs x {send_command(code 0..255 symbolic), state name (8 valid + 4 invalid), "
                       "foreign frame (cs, target symbolic), heartbeat byte symbolic (own / other node), slave boot-up}; "
                       "histories k<=2 from the initial state; wait patterns up to 3 wake-ups",
                 thorough="histories k<=3"),
-    outside_bounds=["heartbeat bytes with undefined state numbers", "wake-up ordering between real threads",
+    outside_bounds=["the *name* reported for undefined state numbers", "wake-up ordering between real threads",
                     "histories longer than the bound (covered by the inductive step under the stated invariant)"],
     assumptions=["node id 5 (other node 9): the code is uniform in the node id",
                  "fake clock advances by the time-out on a wake-up without delivery"],
